@@ -426,7 +426,15 @@ def judge(case, run, result):
                 result.count("blocking_windows_cut_short_by_runtime_end")
                 continue
             beats = [e for e in run.of("beat", gen=0, pid="heart_" + fl) if s["seq"] < e["seq"] < end[0]["seq"]]
-            if len(beats) < 2:
+            if len(beats) < 2 and reference < 0.1 and cpu_wait(fl) > 0.1:
+                # same explanation as for the pauses below: the loop's thread was runnable and waited for a CPU
+                result.count("pauses_explained_by_cpu_contention")
+            elif len(beats) < 2 and "crowd" in gen.get("tags", []) and any(
+                    str(e.get("pid", "")).startswith("crowd") and s["seq"] < e["seq"] < end[0]["seq"] for e in run.of("start", gen=0)):
+                # threads of the crowd were still being started inside this window (adopt of a thread payload returns when the
+                # new thread runs; seen under a load of 2 x cores on the unchanged tree): start-up cost, not blocking
+                result.count("pauses_not_judged_while_a_crowd_of_threads_starts")
+            elif len(beats) < 2:
                 problems.append(("while thread payload %s blocked for %.2f s the %s heartbeat advanced only %d time(s)"
                                  % (s["pid"], end[0]["t"] - s["t"], fl, len(beats)), None))
             elif end[0]["t"] - s["t"] < 1.0:
